@@ -103,6 +103,7 @@ func shJudge(w *mon.W, caseID, seq, typ string, circ, ds bool, count bool) strin
 		w.Violation(caseID, fmt.Sprintf("Hash(%q,%s,%s) rejected an accepted input: %v", clip(seq, 80), typ, flagName(circ, ds), err), rep)
 		return ""
 	}
+	retainCheck(w, caseID, "Hash", got, "seqhash.Hash of "+clip(seq, 60))
 	want := expectedSeqhash(seq, typ, circ, ds)
 	if got != want {
 		form := ""
